@@ -102,5 +102,24 @@ def generate(rng, tier):
         qs.append(f"L{NANB},{fb(thr_exact)}")
         qs.append(f"L{fb(D * 0.5 + 1)},{rng.choice([NANB, PINF, NINF])}")
         out.append((f"stats {hx(skyb(blk, rng))} " + " ".join(qs), len(segs) > 0))
+    # the boundary 'the run descends by exactly the preferred descent' (answer: the start of the run), with the run beginning in a
+    # hover or a level segment, which a walk along the run must not skip over
+    for i in range(80 if tier == "thorough" else 20):
+        scale = rng.choice([1, 10])
+        z = rng.choice([3000, 5000, 800])
+        segs = [(rng.choice([2000, 5000]), [500], [], [z], [])]           # a flight leg: clearly not vertical
+        start = (0, 0, 0, 0)
+        nh = rng.choice([1, 2, 3])
+        for _ in range(nh):
+            segs.append((rng.choice([1000, 3000]), [], [], [], []))       # hover: part of the vertical run
+        drops = [rng.choice([100, 400, 1000]) for _ in range(rng.choice([1, 2]))]
+        zz = z
+        for d in drops:
+            zz -= d
+            segs.append((rng.choice([2000, 4000]), [], [], [zz], []))
+        blk = build(scale, start, segs)
+        D = float(sum(drops) * scale)
+        qs = [f"L{fb(pd)},{fb(thr)}" for pd in (D, b2f(next_up(f2b(D))), b2f(next_down(f2b(D))), D / 2, D + 1.0) for thr in (0.0, 5.0)]
+        out.append((f"stats {hx(skyb(blk, rng))} " + " ".join(qs), True))
     out.append((f"stats {hx(skyb(build(1, (0, 0, 5, 0), [])))} L{fb(2.5)},{fb(0.05)} L{fb(0.0)},{fb(0.05)}", False))
     return out
